@@ -207,8 +207,11 @@ def apply (t : Fns) : Op → Option Fns
       else some { t with getattr := ga, setattr := sa }
     else none
   | .setPostSetattr b =>
-    -- ctraits.c:5038-5044
-    some { t with postSetattr := if b then "post_setattr_trait_python" else NULL }
+    -- set_trait_post_setattr: for a validated property the C-level `post_setattr` slot holds the
+    -- property setter that `setattr_validate_property` calls (`_trait_set_property`): it is left
+    -- alone (F77 repair; before it `trait.post_setattr = None` stored NULL there).
+    if t.setattr = "setattr_validate_property" then some t
+    else some { t with postSetattr := if b then "post_setattr_trait_python" else NULL }
 
 /-- Every `Fns` a program can hold in a live `CTrait`: built by `trait_new`,
 changed by the writing operations, or restored by `__setstate__` from the state
@@ -271,6 +274,61 @@ def kindHandlers : List (String × String) :=
    ("getattr_trait", "setattr_readonly"),     -- 6 read_only
    ("getattr_constant", "setattr_constant"),  -- 7 constant
    ("getattr_generic", "setattr_generic")]    -- 8 generic
+
+/-! ## Using a trait whose handler's fields were never filled
+
+A `CTrait(kind)` built directly carries handlers that read fields only other
+calls fill: `delegate_name` / `delegate_attr_name` (`delegate()`),
+`default_value` (`set_default_value`), `handler` (`TraitType.as_ctrait`).
+Each handler tests for NULL (repairs of F75, F76, F78) and the outcome of
+`obj.z`, `obj.z = 1`, `del obj.z` on a fresh object is an exception class or a
+value - never a NULL dereference. -/
+
+/-- The non-function part of a directly built `CTrait` that matters here. -/
+structure Raw where
+  fns : Fns
+  /-- `delegate(...)` was called -/
+  delegated : Bool := false
+  /-- `default_value_type` (0 until `set_default_value`) -/
+  dvt : Nat := 0
+  deriving Repr
+
+inductive Outcome where
+  | ok | traitError | valueError | unmodelled
+  deriving DecidableEq, Repr
+
+/-- `obj.z` (nothing stored yet). -/
+def probeGet (r : Raw) : Outcome :=
+  if r.fns.getattr = "getattr_delegate" then
+    -- getattr_delegate: DelegationError (a TraitError) when delegate_name / delegate_attr_name is NULL
+    if r.delegated then .unmodelled else .traitError
+  else if r.fns.getattr = "getattr_constant" then .ok      -- a NULL default_value reads as None
+  else if r.fns.getattr = "getattr_trait" then
+    -- default_value_for: the three container defaults call `call_class`, which needs `trait->handler`
+    if r.dvt = 5 ∨ r.dvt = 6 ∨ r.dvt = 9 then .traitError
+    else if r.dvt = 10 then .valueError                     -- "default value not permitted for this trait"
+    else .ok
+  else if requiresProperty r.fns.getattr then .ok           -- the getter is called
+  else .unmodelled
+
+/-- `obj.z = 1`. -/
+def probeSet (r : Raw) : Outcome :=
+  if r.fns.setattr = "setattr_delegate" then (if r.delegated then .unmodelled else .traitError)
+  else if r.fns.setattr = "setattr_constant" then .traitError
+  else if r.fns.setattr = "setattr_trait" then .ok
+  else if r.fns.setattr = "setattr_validate_property" then
+    -- validate, then the setter kept in the `post_setattr` slot
+    if r.fns.validate = NULL ∨ r.fns.postSetattr = NULL then .unmodelled else .ok
+  else if requiresProperty r.fns.setattr then .ok
+  else .unmodelled
+
+/-- `del obj.z` (nothing stored). -/
+def probeDel (r : Raw) : Outcome :=
+  if r.fns.setattr = "setattr_delegate" then (if r.delegated then .unmodelled else .traitError)
+  else if r.fns.setattr = "setattr_constant" then .traitError
+  else if r.fns.setattr = "setattr_trait" then .ok
+  else if requiresProperty r.fns.setattr then .traitError    -- "Cannot delete the … property"
+  else .unmodelled
 
 /-! ## Default value type (ctraits.c:3109-3153, 1840-1913) -/
 
